@@ -18,6 +18,7 @@ func init() {
 		"(2) SUPPRESS: begin…Suppression is called only in the admission function, only after the admission CAS succeeded; every path after it either hands the request to the worker or ends the suppression; each release function ends it exactly once per path; " +
 		"(3) REFUSAL: the CAS-failed edge performs no store, send or suppression call; (4) FLAGS: the writers of reloadPending/reloadActive/reloading are exactly the reviewed set; (5) RETIRE: the retirement goroutine closes its done channel by defer, the channel is published under the manager lock, the release waits for it; " +
 		"(6) BOUNDED: every blocking select of the retirement drain has a timeout case whose timer is armed on every path to the select. " +
+		"(7) GATE: the flag the admission function compare-and-swaps is, at its call sites, the same field every outcome releases; clearReloadPending clears the flag before it erases a rejected request's busy report. " +
 		"Not decided: interleavings of signals with the worker's stages, progress-file races."})
 }
 
@@ -27,6 +28,7 @@ func runC20(c *Ctx) {
 	c20Flags(c)
 	c20Retire(c)
 	c20Bounded(c)
+	c20Gate(c)
 }
 
 // back-edge check: from start, is the loop head (any block in heads) reachable
